@@ -31,10 +31,20 @@ func regGen(prop string, g GenFunc) { gens[prop] = append(gens[prop], g) }
 
 var caseTimeout = 5 * time.Second
 
+// "mem" cases measure allocation of the whole process: they run alone.
+var memLock sync.RWMutex
+
 func runCase(c Case) (res Sx) {
 	f, ok := ops[c.Op]
 	if !ok {
 		return L(Sym("unknown_op"))
+	}
+	if c.Op == "mem" {
+		memLock.Lock()
+		defer memLock.Unlock()
+	} else {
+		memLock.RLock()
+		defer memLock.RUnlock()
 	}
 	done := make(chan Sx, 1)
 	go func() {
